@@ -304,12 +304,13 @@ def combineInner (component : Bool) (combineA combineC : Rat → Rat → Rat →
        combineC sa sg dest.a dest.g, combineC sa sb dest.a dest.b⟩
 
 /-- one iteration of `combine_<hsl>_u_float` (`MAKE_NON_SEPARABLE_PDF_COMBINERS`), as the code
-is: with a mask `sc.g` is multiplied by the mask alpha twice and `sc.b` not at all -/
+is (since 05b40d0 every source channel is multiplied by the mask alpha; before, `sc.g` twice and
+`sc.b` not at all) -/
 def combineHslU (blend : Rgb → Rat → Rgb → Rat → Rgb) (src : Px) (mask : Option Px) (dest : Px) : Px :=
   let (sa, sc) : Rat × Rgb :=
     match mask with
     | none => (src.a, ⟨src.r, src.g, src.b⟩)
-    | some m => (src.a * m.a, ⟨src.r * m.a, src.g * m.a * m.a, src.b⟩)
+    | some m => (src.a * m.a, ⟨src.r * m.a, src.g * m.a, src.b * m.a⟩)
   let da := dest.a
   let dc : Rgb := ⟨dest.r, dest.g, dest.b⟩
   let rc := blend dc da sc sa
